@@ -37,7 +37,7 @@ POSITIONS = [
     "root", "properties", "properties_typed", "patternProperties", "additionalProperties",
     "propertyNames", "dependencies", "items", "tuple_first", "tuple_last", "additionalItems_tuple",
     "additionalItems_plain", "additionalItems_single_items", "contains", "anyOf", "oneOf", "allOf", "not", "typelist", "required_sibling",
-    "definitions", "properties_shadowed", "deep_chain",
+    "definitions", "properties_shadowed", "deep_chain", "properties_keyword_named",
 ]
 REQUIRED_COUNTERS = (
     ["refused", "control_parsed", "cycle.refused", "negative_control_parsed", "route.main", "route.parse",
@@ -70,6 +70,10 @@ def place(inner, position, rng, title="Host"):
         return inner
     if position == "properties":
         return {"properties": {"p": inner, "q": {"type": "string"}}}
+    if position == "properties_keyword_named":
+        # the member is CALLED like an annotation keyword - it is a schema all the same
+        name = rng.choice(["examples", "$comment", "default", "enum", "const", "definitions", "description"])
+        return {"type": "object", "title": title, "properties": {name: inner, "q": {"type": "string"}}}
     if position == "properties_shadowed":
         # two JSON names that map onto ONE Python attribute: the first declaration is shadowed by the
         # second - its schema is part of the document all the same
@@ -310,7 +314,7 @@ CYCLE_POSITIONS = [
     "items", "tuple_first", "additionalItems_tuple", "contains", "anyOf", "oneOf", "allOf", "not",
     # references inside literals are resolved by the loader like any other: a cycle that runs through
     # default / const / enum values only is a recursive document too
-    "default_literal", "const_literal", "enum_literal",
+    "default_literal", "const_literal", "enum_literal", "properties_keyword_named",
 ]
 
 
